@@ -65,7 +65,7 @@ def build(fileseed, specs, macros, structured, eol):
             decoy(cls, pos)
         elif pos == "before_stmt_same_line":
             d = decoy(cls, pos)
-            if cls in ("line_comment", "doc_comment", "inner_doc", "line_trailing_backslash", "line_comment_after_string"):
+            if cls in ("line_comment", "doc_comment", "inner_doc", "line_trailing_backslash", "line_comment_after_string", "line_comment_bare_cr"):
                 gf.newline()       # a line comment swallows the rest of its line by definition
                 gf.raw("    ")
             else:
